@@ -137,6 +137,17 @@ CHECKS["C07"] = (
     "DESIGN.md §3 C07",
 )
 
+CHECKS["C05"] = (
+    "exploration",
+    "history + executable reference model of the documented scalar/top-level helper semantics, plus relational twin monitors on deterministically replayed states (copy vs in-place, assignment vs with_, update vs chained with_, nested keywords vs constructed value, del vs reset, transform vs with_(f(old)), no-op forms)",
+    "On states reached by random histories over generated classes, every scalar/top-level helper form is judged either against the "
+    "model (addressed attribute = prepared new value, collections normalised, nested keywords built/merged, invalidated_by dependants "
+    "back at default, everything else untouched) or by running two documented-equivalent formulations on two replayed copies of the same "
+    "state and comparing outcome class, resulting state and result identity.",
+    "Trusted: the model in checks/c05.py (pure idempotent preparers); replay determinism. UNSPECIFIED forms (DESIGN.md §4) are counted, not judged.",
+    "DESIGN.md §3 C05",
+)
+
 NOT_YET = {}
 
 
